@@ -402,7 +402,7 @@ pub mod fasta {
     /// nothing has been read yet
     spec fn fresh(&self) -> bool { self.b().len() == 0 && self.base() == 0 && self.clean() }
 
-//@fn fasta::Reader::first_byte ret=r tags=C01,C03,C05,C06,C14,C17 r12=fill_buf
+//@fn fasta::Reader::first_byte ret=r tags=C01,C03,C05,C06,C14,C17
 //@spec
         requires
             old(self).wf0(), old(self).buf_reader.cap() >= 2, old(self).base() == 0, old(self).position.byte == 0,
@@ -582,7 +582,7 @@ pub mod fasta {
         }
     }
 
-//@fn fasta::Reader::resume_incomplete_search ret=r tags=C01,C03,C06,C09,C14 r12=fill_buf
+//@fn fasta::Reader::resume_incomplete_search ret=r tags=C01,C03,C06,C09,C14
 //@spec
         requires
             old(self).wf0(), old(self).filled(), old(self).buf_reader.cap() >= 2,
@@ -726,7 +726,7 @@ pub mod fasta {
 }
 
 //@impl_open fasta::Reader::seek
-//@fn fasta::Reader::seek ret=r tags=C05,C06,C14 r12="seek|fill_buf"
+//@fn fasta::Reader::seek ret=r tags=C05,C06,C14
 //@spec
         requires
             old(self).wf(),
